@@ -105,6 +105,10 @@ class _DivTransformer(ast.NodeTransformer):
         return ast.Call(name, args, kwargs)
 
 
+# Only these syntax elements are permitted in parameter functions
+_allowed_nodes = (ast.Expression, ast.BinOp, ast.UnaryOp, ast.Compare, ast.BoolOp, ast.IfExp, ast.Call, ast.Name, ast.Constant, ast.expr_context, ast.operator, ast.unaryop, ast.cmpop, ast.boolop)
+
+
 def parse_function(fcn_str: str) -> tuple:
     """
     Parses a string into a Python function
@@ -149,10 +153,13 @@ def parse_function(fcn_str: str) -> tuple:
     fcn_ast = ast.fix_missing_locations(fcn_ast)
     dep_list = []
     for node in ast.walk(fcn_ast):
+        # Only arithmetic on numbers and named quantities is permitted - anything else (attribute access, method calls,
+        # subscripts, lambdas, comprehensions, f-strings, starred arguments etc.) could be used to reach Python internals
+        assert isinstance(node, _allowed_nodes), f"Only numbers, variable names, arithmetic and comparison operators, and calls to supported functions are allowed ('{type(node).__name__}' in {fcn_str} is not supported)"
         if isinstance(node, ast.Name) and node.id not in supported_functions:
             dep_list.append(node.id)
-        elif isinstance(node, ast.Call) and hasattr(node, "func") and hasattr(node.func, "id"):
-            assert node.func.id in supported_functions, f"Only calls to supported functions are allowed ({node.func.id} in {fcn_str} is not supported)"
+        elif isinstance(node, ast.Call):
+            assert isinstance(node.func, ast.Name) and node.func.id in supported_functions and not node.keywords, f"Only calls to supported functions are allowed ({ast.dump(node.func)} in {fcn_str} is not supported)"
     compiled_code = compile(fcn_ast, filename="<ast>", mode="eval")
 
     def fcn(**deps):
